@@ -74,9 +74,9 @@ def parseUDef (s : String) : Option UDef :=
   match s.splitOn "=" with
   | ["wrap", n, d, v] => do
     let d ← parsePows d; let v ← parseRat v
-    pure (.wrap n { dim := d, val := v })
-  | ["str", n, e] => some (.str n e)
-  | ["item", n, e] => some (.item n e)
+    pure (.wrap n.toList { dim := d, val := v })
+  | ["str", n, e] => some (.str n.toList e.toList)
+  | ["item", n, e] => some (.item n.toList e.toList)
   | _ => none
 
 def splitList (s : String) (sep : String) : List String := if s = "" then [] else s.splitOn sep
@@ -145,7 +145,7 @@ def handle (U : UTable) (line : String) : UTable × String :=
       | .ok () => pure' "ok"
       | .error er => pure' s!"err|{errName er}"
     | _, _, _, _ => pure' "bad-request"
-  | ["prefixes"] => pure' (";".intercalate (prefixes.map fun p => s!"{p.1}={showRat p.2}"))
+  | ["prefixes"] => pure' (";".intercalate (prefixes.map fun p => s!"{String.ofList p.1}={showRat p.2}"))
   | ["units", defs] =>
     match (splitList defs ";").mapM parseUDef with
     | some defs =>
@@ -153,7 +153,7 @@ def handle (U : UTable) (line : String) : UTable × String :=
       | .ok U' => (U', s!"ok|{U'.length}")
       | .error e => pure' s!"err|{perrName e}"
     | none => pure' "bad-request"
-  | ["table"] => pure' (";".intercalate (U.map fun e => s!"{e.1}={showPows e.2.dim}={showRat e.2.val}"))
+  | ["table"] => pure' (";".intercalate (U.map fun e => s!"{String.ofList e.1}={showPows e.2.dim}={showRat e.2.val}"))
   | ["parse", s] =>
     match parse U s.toList with
     | .ok v => pure' s!"ok|{showUVal v}"
@@ -187,13 +187,13 @@ def handle (U : UTable) (line : String) : UTable × String :=
         | [n, d, v] =>
           match parsePows d, parseRat v with
           | some d, some v =>
-            match define T n { dim := d, val := v } with
+            match define T n.toList { dim := d, val := v } with
             | .ok T' => go T' t ("ok" :: acc)
             | .error e => go T t (perrName e :: acc)
           | _, _ => none
         | _ => none
     match go [] (splitList steps ";") [] with
-    | some (T, res) => pure' (",".intercalate res ++ "|" ++ ";".intercalate (T.map fun e => s!"{e.1}={showRat e.2.val}"))
+    | some (T, res) => pure' (",".intercalate res ++ "|" ++ ";".intercalate (T.map fun e => s!"{String.ofList e.1}={showRat e.2.val}"))
     | none => pure' "bad-request"
   | _ => pure' "bad-request"
 
